@@ -1,13 +1,13 @@
 (* C12 — regex caching is transparent (tree level; the router level composes this with C02's
    refinement, see RIO.RouterProofs when present).  Statements only. *)
-Require Import RIO.Base RIO.Prefix RIO.Tree RIO.TreeProofs RIO.TreeInst.
+Require Import RIO.Base RIO.Prefix RIO.Route RIO.Tree RIO.TreeProofs RIO.TreeInst RIO.Matchers RIO.MatcherSpec RIO.RouterSpec RIO.RouterHist RIO.RouterProofs.
 Close Scope N_scope.
 
 (* Warming the cache (any limit, any level or the level loop) at any point of any admissible history
    changes no lookup, no lookup-by-pattern, no size and no stored entry. *)
 Theorem C12_tree_cache_transparent : forall (V : Type) eng valid, engine_dotstar eng -> engine_prefix_law eng ->
-  forall ic (ops : list (op V)) limit level s, hist_ok V shape_c [] ops ->
-  let t := tree_of V cp_c take_c clen_c valid ic ops in
+  forall ic (ops : list (TreeProofs.op V)) limit level s, TreeProofs.hist_ok V shape_c [] ops ->
+  let t := TreeProofs.tree_of V cp_c take_c clen_c valid ic ops in
   let t' := fst (tree_cache V valid t limit level) in
   find V eng t' s = find V eng t s /\ (forall re, get V t' re = get V t re) /\ len V t' = len V t /\ entries V t' = entries V t.
 Proof.
@@ -17,10 +17,10 @@ Qed.
 (* Cache steps inside a history do not change the live set: the refinement of C08 treats OCache as the
    identity on the specification side, so any interleaving of cache with updates answers like the
    uncached history. *)
-Theorem C12_cache_steps_invisible : forall (V : Type) (ops1 ops2 : list (op V)) limit level,
-  live V (ops1 ++ OCache V limit level :: ops2) = live V (ops1 ++ ops2).
+Theorem C12_cache_steps_invisible : forall (V : Type) (ops1 ops2 : list (TreeProofs.op V)) limit level,
+  TreeProofs.live V (ops1 ++ OCache V limit level :: ops2) = TreeProofs.live V (ops1 ++ ops2).
 Proof.
-  intros. unfold live, live_from. rewrite !fold_left_app. reflexivity.
+  intros. unfold TreeProofs.live, TreeProofs.live_from. rewrite !fold_left_app. reflexivity.
 Qed.
 
 (* caching only flips compiled flags *)
@@ -34,6 +34,27 @@ Example C12_empty_leaf_differs :
   mleaf eng false [] false [120]%N = true /\ mleaf eng false [] true [120]%N = false.
 Proof. split; reflexivity. Qed.
 
+(* Router level: Router::cache with any limit (or the default budget), at any point of any admissible
+   history, changes no match result ... *)
+Theorem C12_router_cache_transparent : forall lower eng valid ic_host ic_path always,
+  engine_dotstar eng -> engine_prefix_law eng ->
+  forall ops limit q, RouterProofs.hist_ok lower [] ops ->
+  let R := rrun lower eng valid ic_host ic_path always ops (router_new lower eng valid ic_host ic_path always) in
+  Permutation (router_match lower eng valid ic_host ic_path always q (router_cache lower eng valid ic_host ic_path always limit R))
+              (router_match lower eng valid ic_host ic_path always q R).
+Proof.
+  intros lower eng valid ih ip al Hd Hp ops limit q Hok R.
+  apply (cache_invisible lower eng valid ih ip al Hd Hp R (RouterHist.live ops) limit q).
+  apply (rrun_refines lower eng valid ih ip al Hd Hp ops _ []); [apply rrepr_new|exact Hok].
+Qed.
+
+(* ... and a cache step anywhere inside a history is invisible to everything that follows (the live set is
+   unchanged, and C02_refines holds for histories containing RCache steps) *)
+Theorem C12_router_cache_steps_invisible : forall ops1 ops2 limit, RouterHist.live (ops1 ++ RCache limit :: ops2) = RouterHist.live (ops1 ++ ops2).
+Proof. intros. unfold RouterHist.live, RouterHist.live_from. rewrite !fold_left_app. reflexivity. Qed.
+
 Print Assumptions C12_tree_cache_transparent.
+Print Assumptions C12_router_cache_transparent.
+Print Assumptions C12_router_cache_steps_invisible.
 Print Assumptions C12_cache_steps_invisible.
 Print Assumptions C12_only_flags.
